@@ -19,6 +19,7 @@ import (
 	"runtime"
 	"sort"
 	"strings"
+	"time"
 
 	"github.com/ontio/ontology/core/store/overlaydb"
 	"verifharness/lib/kvl"
@@ -91,6 +92,7 @@ type machine struct {
 	valCtr   int
 
 	counters map[string]int64 // flushed into the run at the end of the case
+	beat     *kvl.Beat
 
 	clone     *overlaydb.MemDB
 	cloneSnap []kvl.KV
@@ -127,6 +129,10 @@ func (mc *machine) report(clause, detail string) {
 }
 
 func (mc *machine) count(name string) { mc.counters[name]++ }
+
+// begin records an operation BEFORE it is executed, so that the witness of a case that
+// panics or hangs inside the operation names it.
+func (mc *machine) begin(op string) { mc.ops = append(mc.ops, op) }
 
 func (mc *machine) newVal() []byte {
 	mc.valCtr++
@@ -269,6 +275,7 @@ func (mc *machine) step(i int) {
 	case c < 24:
 		k, v := stKey(), mc.newVal()
 		op = "tx.put " + vf.Hex([]byte(k)) + "=" + vf.Hex(v)
+		mc.begin(op)
 		mc.lastOp = "tx.put"
 		switch {
 		case len(m.TxGet(k)) != 0:
@@ -285,6 +292,7 @@ func (mc *machine) step(i int) {
 	case c < 34:
 		k := stKey()
 		op = "tx.del " + vf.Hex([]byte(k))
+		mc.begin(op)
 		mc.lastOp = "tx.del"
 		if len(m.TxGet(k)) == 0 {
 			mc.count("write/tx.del_of_absent")
@@ -296,12 +304,14 @@ func (mc *machine) step(i int) {
 	case c < 36:
 		k := stKey()
 		op = "tx.put " + vf.Hex([]byte(k)) + "="
+		mc.begin(op)
 		mc.lastOp = "tx.put_empty"
 		s.Cache.Put([]byte(k)[1:], []byte{})
 		m.Tx[k] = nil
 	case c < 46:
 		k, v := anyKey(), mc.newVal()
 		op = "ov.put " + vf.Hex([]byte(k)) + "=" + vf.Hex(v)
+		mc.begin(op)
 		mc.lastOp = "ov.put"
 		if _, ok := m.Tx[k]; ok {
 			mc.count("write/ov.put_under_pending_tx_entry")
@@ -311,6 +321,7 @@ func (mc *machine) step(i int) {
 	case c < 51:
 		k := anyKey()
 		op = "ov.del " + vf.Hex([]byte(k))
+		mc.begin(op)
 		mc.lastOp = "ov.del"
 		if len(m.Persist[k]) != 0 {
 			mc.count("write/ov.del_of_persisted")
@@ -320,11 +331,13 @@ func (mc *machine) step(i int) {
 	case c < 52:
 		k := anyKey()
 		op = "ov.put " + vf.Hex([]byte(k)) + "="
+		mc.begin(op)
 		mc.lastOp = "ov.put_empty"
 		s.Overlay.Put([]byte(k), nil)
 		m.Overlay[k] = nil
 	case c < 60:
 		op, mc.lastOp = "tx.commit", "tx.commit"
+		mc.begin(op)
 		if len(m.Tx) == 0 {
 			mc.count("tx.commit_empty")
 		} else {
@@ -334,6 +347,7 @@ func (mc *machine) step(i int) {
 		m.CommitTx()
 	case c < 65:
 		op, mc.lastOp = "tx.reset", "tx.reset"
+		mc.begin(op)
 		if len(m.Tx) != 0 {
 			mc.count("tx.reset_nonempty")
 		}
@@ -342,6 +356,7 @@ func (mc *machine) step(i int) {
 	case c < 67:
 		// a new transaction cache on the same block overlay; pending writes are dropped
 		op, mc.lastOp = "tx.new", "tx.new"
+		mc.begin(op)
 		s.FreshCache()
 		m.ResetTx()
 	case c < 71:
@@ -349,16 +364,19 @@ func (mc *machine) step(i int) {
 		switch rng.Intn(4) {
 		case 0: // end of block, overlay object kept as is
 			op, mc.lastOp = "block.commit(keep overlay)", "block.commit_keep"
+			mc.begin(op)
 			err = s.CommitOverlay()
 			m.CommitOverlay()
 		case 1: // end of block, overlay reused after Reset; the tx cache keeps its pending writes
 			op, mc.lastOp = "block.commit(overlay.Reset)", "block.commit_reset"
+			mc.begin(op)
 			err = s.CommitOverlay()
 			s.Overlay.Reset()
 			m.CommitOverlay()
 			m.ClearOverlay()
 		case 2: // end of block, then a fresh overlay + tx cache (what the ledger does)
 			op, mc.lastOp = "block.commit(fresh overlay)", "block.commit_fresh"
+			mc.begin(op)
 			err = s.CommitOverlay()
 			s.Fresh()
 			m.CommitOverlay()
@@ -366,24 +384,25 @@ func (mc *machine) step(i int) {
 			m.ResetTx()
 		default: // block abandoned
 			op, mc.lastOp = "block.discard(overlay.Reset)", "block.discard"
+			mc.begin(op)
 			s.Overlay.Reset()
 			m.ClearOverlay()
 		}
 		mc.count(mc.lastOp)
 		if err != nil {
-			mc.ops = append(mc.ops, op)
 			mc.report("commit:error", err.Error())
 			return
 		}
 	case c < 74:
 		op, mc.lastOp = "ov.clone", "ov.clone"
+		mc.begin(op)
 		mc.checkClone("before re-cloning")
 		mc.clone = s.Overlay.GetWriteSet().DeepClone()
 		mc.cloneSnap = kvl.SortedLayer(m.Overlay)
 		mc.cloneAt = i
 		if rng.Bool() && len(mc.universe) > 0 { // writing to the clone must not leak into the overlay
 			k, v := anyKey(), []byte{0xcc, byte(i)}
-			op += " clone.put " + vf.Hex([]byte(k)) + "=" + vf.Hex(v)
+			mc.begin("clone.put " + vf.Hex([]byte(k)) + "=" + vf.Hex(v))
 			mc.clone.Put([]byte(k), v)
 			l := kvl.Layer{}
 			for _, kv := range mc.cloneSnap {
@@ -395,10 +414,11 @@ func (mc *machine) step(i int) {
 		}
 	default:
 		op, mc.lastOp = "iterate", "iterate"
+		mc.begin(op)
 		extra = 3
 	}
-	mc.ops = append(mc.ops, op)
 	mc.checkAll(extra)
+	mc.beat.Tick()
 }
 
 func runCase(r *vf.Run, rng *vf.RNG, idx int) {
@@ -425,6 +445,10 @@ func runCase(r *vf.Run, rng *vf.RNG, idx int) {
 	}
 	mc.s = kvl.AcquireStack()
 	defer mc.s.Release()
+	mc.beat = watchdog.Begin(func() interface{} {
+		return mc.witness(map[string]interface{}{"stuck": "the last entry of ops (or the state check after it) never returned"})
+	})
+	defer mc.beat.End()
 	// pre-populate the persistent store
 	pct := []int{0, 30, 60, 100}[rng.Intn(4)]
 	for j, k := range mc.universe {
@@ -472,13 +496,17 @@ func minInt(a, b int) int {
 	return b
 }
 
+var watchdog *kvl.Watchdog
+
 func main() {
 	r := vf.NewRun("C04", "exploration",
 		"each case: a universe of <=25 raw keys (storage keys 0x05.. of 1..6 bytes over {00,01,61,fe,ff} sharing prefixes, plus a few keys of other data-entry prefixes), a random part of it pre-populated in a memory LevelDB, then a history of 20..250 ops (tx put/delete/commit/reset/new, direct overlay put/delete, block commit keep/Reset/fresh, block discard, write-set DeepClone, extra iterations) on the real CacheDB->OverlayDB->store stack with the full oracle after every op; distinct by (universe, op sequence); non-trivial when >=2 state-changing ops")
 	rng := vf.NewRNG(vf.Seed())
+	watchdog = kvl.NewWatchdog(r, 60*time.Second)
 	nCases := vf.N(1500, 24000)
 	vf.Parallel(nCases, runtime.NumCPU(), func(i int) { runCase(r, rng.Sub(uint64(i)), i) })
 
+	watchdog.Stop()
 	for _, lv := range []string{kvl.LvCache, kvl.LvOverlay} {
 		for _, c := range kvl.JoinCases {
 			r.Require(lv+"/"+c, 50)
